@@ -22,7 +22,9 @@ def _common_coverage(c, extra=None):
         "exhaustive_completed": bool(exh["ok"]), "exhaustive_depth": exh.get("depth"),
         "real_runs": len(runs), "real_run_matrix": c["matrix"], "trace_events_validated": val["events"],
         "traces_recorded": val["traces"], "traces_rejected": len(val["rejected"]),
-        "binding_selftest": val.get("selftest"),
+        "binding_selftest": val.get("selftest"), "traces_too_long_to_validate": val.get("skipped_long", 0),
+        "programs_non_terminating_within_bound": c.get("nonterminating", []),
+        "runs_with_premature_heartbeat_timeout_not_judged": sum(1 for r in runs if r.get("premature")),
         "campaign_wall_s": round(c.get("wall", 0), 1),
     }
     if extra:
@@ -67,7 +69,7 @@ def c01():
             v.violation("accepted closed program %s dies at run time in mode %s: %s" % (r["prog"], r["mode"], r["crash"][-400:]),
                         {"program": text[r["prog"]], "run": {k: r[k] for k in ("id", "mode", "gomaxprocs", "monitor", "yield", "seed")}, "crash": r["crash"]},
                         {"program": r["prog"], "mode": r["mode"]})
-        elif r["hang"]:
+        elif r["hang"] and not r.get("nonterminating"):
             v.notes.append("run %s did not finish within the time limit (not judged)" % r["id"])
     _model_issues(c, v, ("NoProtocolError", "OneMessagePerChannel", "OneListener"))
     cov = _common_coverage(c, {"crashes_observed": sum(1 for r in c["runs"] if r["crash"]),
@@ -93,7 +95,7 @@ def c02():
     text = {p["name"]: p["text"] for p in c["progs"]}
     judged = 0
     for r in c["runs"]:
-        if r["crash"] or r["hang"] or r["mode"] == "np" or r["late"]:
+        if r["crash"] or r["hang"] or r["mode"] == "np" or r["late"] or r.get("nonterminating") or r.get("premature"):
             continue
         judged += 1
         bad = _blocked_bad(r)
@@ -115,7 +117,7 @@ def c03():
     info = {p["name"]: p for p in c["progs"]}
     by = collections.defaultdict(list)
     for r in c["runs"]:
-        if r["crash"] or r["hang"] or r["late"] or r["prints"] is None:
+        if r["crash"] or r["hang"] or r["late"] or r["prints"] is None or r.get("nonterminating") or r.get("premature"):
             continue
         if r["mode"] == "np" and not info[r["prog"]]["cfree"]:
             continue
